@@ -469,8 +469,8 @@ class JumpTimesDirect(Lemma):
 
 class BuildFinerGrid(Lemma):
     """SimulationMaximumStep._build_finer_grid and coupling.helper._build_finer_grid (real bodies; 1 or 2 jump times, every
-    original gap below 3 epsilon): the returned times are strictly increasing, every step -- the first one from 0 included
-    -- is at most epsilon, every original (time, value) is kept in order, and an inserted point carries the value of the
+    original gap below 3 epsilon): the returned times are strictly increasing, every step -- the first one from 0 and the
+    last one up to the maturity included -- is at most epsilon, every original (time, value) is kept in order, and an inserted point carries the value of the
     point before it (0 before the first jump); fine and coarse components get the same times."""
     prop = "C15"
     cases = tuple((impl, n) for impl in ("levyprocess", "coupling") for n in (1, 2))
@@ -486,7 +486,7 @@ class BuildFinerGrid(Lemma):
         vs = vc.reals("v", n)
         ws = vc.reals("w", n)
         vc.assume(And(eps > 0, eps < T, ts[0] > 0, *[a < b for a, b in zip(ts, ts[1:])], ts[-1] < T))
-        gaps = [ts[0]] + [b - a for a, b in zip(ts, ts[1:])]
+        gaps = [ts[0]] + [b - a for a, b in zip(ts, ts[1:])] + [T - ts[-1]]       # the gap up to the maturity included
         vc.assume(And(*[g < 3 * eps for g in gaps]))
         it = vc.interp
         if impl == "levyprocess":
@@ -501,7 +501,7 @@ class BuildFinerGrid(Lemma):
             ot, ov, ow = as_list(out[0]), as_list(out[1]), as_list(out[2])
         m = len(ot)
         vc.check(nm + "::one-value-per-time", len(ov) == m and (ow is None or len(ow) == m))
-        steps = [ot[0]] + [b - a for a, b in zip(ot, ot[1:])]
+        steps = [ot[0]] + [b - a for a, b in zip(ot, ot[1:])] + [T - ot[-1]]      # the caller appends the maturity
         vc.check(nm + "::times-strictly-increasing-and-positive", And(*[s > 0 for s in steps]))
         vc.check(nm + "::every-step-at-most-epsilon", And(*[s <= eps for s in steps]))
         # every output point is either an original point or an inserted one repeating the previous value
@@ -514,7 +514,7 @@ class BuildFinerGrid(Lemma):
             return And(*conds)
         vc.check(nm + "::inserted-points-repeat-the-preceding-value", well_formed(ov, vs) if ow is None else And(well_formed(ov, vs), well_formed(ow, ws)))
         vc.check(nm + "::every-original-point-is-kept", And(*[Or(*[And(ot[k] == ts[j], ov[k] == vs[j]) for k in range(m)]) for j in range(n)]))
-        vc.check(nm + "::ends-at-the-last-jump-time", ot[-1] == ts[-1])
+        vc.check(nm + "::no-point-at-or-beyond-the-maturity", ot[-1] < T)
 
     def replay(self, model, clause, case):
         impl, n = case
